@@ -1,4 +1,5 @@
 import Beetswap.Spec.ServerSpec
+import Beetswap.Proofs.ServerDrain
 /-!
 Proofs for the serving side. The statements at the end are used by `Props/C06`, `C07`, `C13`
 and must keep these exact statements.
@@ -8,47 +9,84 @@ open Std Beetswap.Server Beetswap.Spec.ServerSpec
 open Beetswap.Client (Out StoreRes)
 
 theorem inv_init : Inv ({} : State) := by
-  sorry
+  rw [inv_iff]
+  refine ⟨?_, ?_, ?_, ?_, rfl⟩
+  · intro p k; simp [wlist, Wants]
+  · intro k; simp [wlist]
+  · intro k; simp
+  · intro p set; simp
 
 theorem inv_step (s : State) (seq : Nat) (op : Op) (h : Inv s) : Inv (step s seq op).1 := by
-  sorry
+  cases op with
+  | connect p => exact inv_connect s p h
+  | disconnected p => exact inv_disconnected s p h
+  | msg p full es => exact inv_incoming s p full es h
+  | newBlocks bs => exact inv_congr (s := s) rfl rfl rfl h
+  | complete n r =>
+    show Inv ((complete s n r).getD s)
+    unfold complete
+    split
+    · exact h
+    · exact inv_congr (s := s) rfl rfl rfl h
+  | drain obs =>
+    obtain ⟨mid, b, _, _, _, _, _, _, hu⟩ := drain_spec s seq obs h
+    exact hu.inv
 
 theorem inv_reachable (s : State) (seq : Nat) (h : Reachable s seq) : Inv s := by
-  sorry
+  induction h with
+  | init => exact inv_init
+  | step op _ ih => exact inv_step _ _ op ih
 
 /-- C07: a block is dispatched to a peer only if, when the drain started, the peer's recorded
 wantlist held its CID. -/
 theorem sent_implies_wanted (s : State) (seq : Nat) (obs : Nat → Option Nat) (h : Inv s)
     (p k d : Nat) (hs : (k, d) ∈ sentTo (drain s seq obs).2.2 p) : Wants s p k := by
-  sorry
+  obtain ⟨mid, b, hmid, hwl, hwait, hq, hav, hsent, hu⟩ := drain_spec s seq obs h
+  rw [hsent] at hs
+  rcases hu.sent p k d hs with hs | ⟨_, hw, _⟩
+  · simp [sentB_nil] at hs
+  · unfold Wants at hw ⊢; rw [← hwl]; exact hw
 
 /-- C07: the dispatched bytes are bytes the blockstore returned for that CID (or bytes the
 client half accepted and stored for it). -/
-theorem sent_is_available (s : State) (seq : Nat) (obs : Nat → Option Nat)
+theorem sent_is_available (s : State) (seq : Nat) (obs : Nat → Option Nat) (h : Inv s)
     (p k d : Nat) (hs : (k, d) ∈ sentTo (drain s seq obs).2.2 p) : Available s k d := by
-  sorry
+  obtain ⟨mid, b, hmid, hwl, hwait, hq, hav, hsent, hu⟩ := drain_spec s seq obs h
+  rw [hsent] at hs
+  rcases hu.sent p k d hs with hs | ⟨hl, _, _⟩
+  · simp [sentB_nil] at hs
+  · exact hav k d (Or.inl hl)
 
 /-- C07: at most one copy per expressed want: in one drain a peer gets at most one block per CID … -/
 theorem one_copy_per_drain (s : State) (seq : Nat) (obs : Nat → Option Nat) (h : Inv s)
     (p k : Nat) : ((sentTo (drain s seq obs).2.2 p).filter (fun kd => kd.1 = k)).length ≤ 1 := by
-  sorry
+  obtain ⟨mid, b, hmid, hwl, hwait, hq, hav, hsent, hu⟩ := drain_spec s seq obs h
+  rw [hsent]
+  exact (hu.one p k (by simp [sentB_nil]) (by simp [sentB_nil])).1
 
 /-- … and the want is forgotten once served, so a second copy needs a new want. -/
 theorem served_want_forgotten (s : State) (seq : Nat) (obs : Nat → Option Nat) (h : Inv s)
     (p k d : Nat) (hs : (k, d) ∈ sentTo (drain s seq obs).2.2 p) :
     ¬ Wants (drain s seq obs).1 p k := by
-  sorry
+  obtain ⟨mid, b, hmid, hwl, hwait, hq, hav, hsent, hu⟩ := drain_spec s seq obs h
+  rw [hsent] at hs
+  rcases hu.sent p k d hs with hs | ⟨_, _, hnw⟩
+  · simp [sentB_nil] at hs
+  · exact hnw
 
 /-- C06: whatever is queued for dispatch reaches every peer that waits for it. -/
 theorem queued_block_dispatched (s : State) (seq : Nat) (obs : Nat → Option Nat) (h : Inv s)
     (p k d : Nat) (hq : (k, d) ∈ s.outq) (hw : Wants s p k) :
     ∃ d', (k, d') ∈ sentTo (drain s seq obs).2.2 p := by
-  sorry
+  obtain ⟨mid, b, hmid, hwl, hwait, hq', hav, hsent, hu⟩ := drain_spec s seq obs h
+  rw [hsent]
+  apply hu.disp p k d (hq' _ hq)
+  unfold Wants at hw ⊢; rw [← hwl] at hw; exact hw
 
 /-- C06: blocks that become available through the node's own fetches are queued. -/
 theorem newBlocks_queued (s : State) (bs : List (Nat × Nat)) (kd : Nat × Nat) (h : kd ∈ bs) :
     kd ∈ (newBlocks s bs).outq := by
-  sorry
+  unfold newBlocks; exact List.mem_append_right _ h
 
 /-- C06: a want that is new for the peer's record (first expression, re-expression after it was
 served, or first in a new session) registers the peer and schedules a blockstore lookup. -/
@@ -57,7 +95,21 @@ theorem new_want_scheduled (s : State) (p : Nat) (full : Bool) (es : List Entry)
     (hnew : Wants (incoming s p full es) p k) :
     Waits (incoming s p full es) p k ∧
     ∃ t ∈ (incoming s p full es).tasks, t.peer = p ∧ k ∈ t.todo ∧ t.id ∈ (incoming s p full es).runq := by
-  sorry
+  have pw := pwspec cur full es
+  have hkn : k ∈ (processWantlist cur full es).1 := (wants_incoming_self s p full es cur hc k).1 hnew
+  have hka : k ∈ (processWantlist cur full es).2.1 := by
+    rcases (pw.mem_new k).1 hkn with hh | hh
+    · exact absurd hh.1 hk
+    · exact hh
+  have hne : NoEmpty s := ((inv_iff s).1 h).2.2.1
+  refine ⟨?_, ?_⟩
+  · rw [waits_iff, wlist_incoming s p full es cur hc]
+    rw [(incomingMid_spec s p _ _ _ hne pw.added_nodup pw.removed_nodup).2 k, if_pos hka]
+    simp
+  · rw [incoming_eq s p full es cur hc]
+    dsimp only
+    refine ⟨_, List.mem_append_right _ (List.mem_singleton_self _), rfl, hka, ?_⟩
+    exact List.mem_append_right _ (List.mem_singleton_self _)
 
 /-- C06: an update with a non-cancel entry for `k` records the want when the record is below
 the cap and the message does not cancel `k`. -/
@@ -65,43 +117,56 @@ theorem update_want_recorded (s : State) (p : Nat) (es : List Entry) (cur : KSet
     (hc : s.wl[p]? = some cur) (k : Nat) (hk : (⟨some k, false⟩ : Entry) ∈ es)
     (hsmall : cur.size + es.length ≤ maxWantlistEntries) :
     Wants (incoming s p false es) p k := by
-  sorry
+  rw [wants_incoming_self s p false es cur hc]
+  exact update_new_mem cur es k hk hsmall
 
 /-- C06: a full wantlist records every wanted CID among its first 1024 wanted entries. -/
 theorem full_want_recorded (s : State) (p : Nat) (es : List Entry) (cur : KSet)
     (hc : s.wl[p]? = some cur) (k : Nat) (hk : (⟨some k, false⟩ : Entry) ∈ es)
     (hsmall : es.length ≤ maxWantlistEntries) :
     Wants (incoming s p true es) p k := by
-  sorry
+  rw [wants_incoming_self s p true es cur hc, mem_full_new, mem_fullWanted_of_short es k hsmall]
+  exact hk
 
 /-- C07: a cancel, or a full wantlist omitting the CID, withdraws the want. -/
 theorem cancel_withdraws (s : State) (p : Nat) (es : List Entry) (cur : KSet)
     (hc : s.wl[p]? = some cur) (k : Nat) (hk : (⟨some k, true⟩ : Entry) ∈ es)
     (hno : (⟨some k, false⟩ : Entry) ∉ es) : ¬ Wants (incoming s p false es) p k := by
-  sorry
+  rw [wants_incoming_self s p false es cur hc]
+  intro hm
+  rcases update_mem_new cur es k hm with hh | hh
+  · exact hh.2 hk
+  · exact hno hh
 
 theorem full_omission_withdraws (s : State) (p : Nat) (es : List Entry) (cur : KSet)
     (hc : s.wl[p]? = some cur) (k : Nat) (hno : (⟨some k, false⟩ : Entry) ∉ es) :
     ¬ Wants (incoming s p true es) p k := by
-  sorry
+  rw [wants_incoming_self s p true es cur hc, mem_full_new]
+  exact fun hm => hno (mem_fullWanted_sub es k hm)
 
 /-- C13: whatever mix of update and full wantlists a peer sends, at most 1024 CIDs are recorded. -/
 theorem server_cap (s : State) (seq : Nat) (h : Reachable s seq) (p : Nat) (set : KSet)
     (hp : s.wl[p]? = some set) : set.size ≤ 1024 := by
-  sorry
+  exact (inv_reachable s seq h).cap p set hp
 
 /-- C13: all server-side state about a peer is dropped when its last connection closes. -/
 theorem disconnect_drops (s : State) (p : Nat) :
     (disconnected s p).wl[p]? = none ∧ ∀ k, ¬ Waits (disconnected s p) p k := by
-  sorry
+  refine ⟨?_, ?_⟩
+  · unfold disconnected; simp
+  · intro k; rw [waits_iff, wlist_disconnected]; simp
 
 /-- C06: … and a reconnecting peer starts from an empty record, so every want is new again. -/
 theorem reconnect_fresh (s : State) (p : Nat) :
     (connect (disconnected s p) p).wl[p]? = some ∅ := by
-  sorry
+  have hp : p ∉ (disconnected s p).wl := by
+    unfold disconnected; simp
+  unfold connect
+  rw [if_neg hp]
+  simp
 
 /-- C15 (server side): a further connection of a known peer changes nothing. -/
 theorem extra_connection_keeps_state (s : State) (p : Nat) (h : p ∈ s.wl) : connect s p = s := by
-  sorry
+  exact connect_of_mem s p h
 
 end Beetswap.Proofs.Server
